@@ -39,6 +39,14 @@ fn bytes_of(w: &dyn RtcpPacketWriter) -> Result<Vec<u8>, WErr> {
     Ok(buf)
 }
 
+/// Besides its bytes, what a writer tells a compound: its `get_padding()` and whether a compound accepts it in a
+/// non-last position (`add_packet(this).add_packet(BYE)`). Wrappers and owned variants must agree on these too.
+fn side_answers(w: &dyn RtcpPacketWriter) -> (Option<u8>, Result<usize, WErr>) {
+    let pad = w.get_padding();
+    let nonlast = Compound::builder().add_packet(DynW(w)).add_packet(Bye::builder().add_source(1)).calculate_size().map_err(build::werr);
+    (pad, nonlast)
+}
+
 fn canonical(model: &Pkt) -> Result<Vec<u8>, WErr> {
     let mut out = Err(WErr::Other("not built".into()));
     build::with_writer(model, Variant::PLAIN, &mut |w| out = bytes_of(w));
@@ -684,6 +692,13 @@ pub fn c20(ctx: &mut Ctx) {
                     return;
                 }
             };
+            let want_side = guard::catch(|| {
+                let mut out = None;
+                build::with_writer(&model, Variant::PLAIN, &mut |w| out = Some(side_answers(w)));
+                out
+            })
+            .ok()
+            .flatten();
             if let Ok(b) = &want {
                 l.nontrivial(crate::engine::run::fp_bytes(b));
             }
@@ -691,12 +706,26 @@ pub fn c20(ctx: &mut Ctx) {
                 l.transitions += 1;
                 let r = guard::catch(|| {
                     let mut out = Err(WErr::Other("not built".into()));
-                    build::with_writer(&model, *var, &mut |w| out = bytes_of(w));
-                    out
+                    let mut side = None;
+                    build::with_writer(&model, *var, &mut |w| {
+                        out = bytes_of(w);
+                        side = Some(side_answers(w));
+                    });
+                    (out, side)
                 });
                 match r {
                     Err(pi) => l.subject_panic(&format!("flavour:{}", model.builder_name()), &pi, || format!("{} [{:?}]", model.short(), var)),
-                    Ok(got) => {
+                    Ok((got, side)) => {
+                        // a one-member compound reports its member's padding and is judged as a whole in a
+                        // non-last position, so it must give the same two answers as the bare builder
+                        if want.is_ok() && side != want_side {
+                            l.violation(
+                                format!("flavour-dependent-padding-answer:{}", model.builder_name()),
+                                || format!("{} [{:?}]", model.short(), var),
+                                || format!("plain construction: get_padding / size of [this, BYE] = {:?}; this flavour: {:?}", want_side, side),
+                            );
+                            continue;
+                        }
                         l.validated += 1;
                         let got = got.map(|b| canon_fir(&model, b));
                         if got == want {
